@@ -415,6 +415,9 @@ func c16Scens(tier string) []e1Scen {
 			lead := cfg.leading()
 			if tl[lead].video() {
 				kinds := []string{"R", "n", "R", "n", "P", "n", "R", "N", "r", "n", "R"}
+				if k := tl[lead].Kind; k == "h264" {
+					kinds = append(kinds, "Q", "r", "n", "r", "n", "R") // new parameter sets in an access unit of their own, then bare key frames
+				}
 				for i, k := range kinds {
 					d := "h"
 					if i == 0 {
